@@ -17,8 +17,8 @@ pub struct St { pub valid: bool }
 //@event new_nvt free
 //@event new_nvt_unchecked free
 //@flag tested
-//@on then res.norm() < tol => tested = true;
-//@on? assign res => tested = false;
+//@on then $res.norm() < tol => tested = true;
+//@on? assign $res => tested = false;
     ensures r.0 is Ok ==> r.1 && r.0->Ok_0.valid
 //@end
 
@@ -28,8 +28,8 @@ pub struct St { pub valid: bool }
 //@event new_nvt free
 //@event new_nvt_unchecked free
 //@flag tested
-//@on then res.norm() < tol => tested = true;
-//@on? assign res => tested = false;
+//@on then $res.norm() < tol => tested = true;
+//@on? assign $res => tested = false;
     ensures r.0 is Ok ==> r.1 && r.0->Ok_0.valid
 //@end
 
@@ -39,8 +39,8 @@ pub struct St { pub valid: bool }
 //@event new_nvt free
 //@event new_nvt_unchecked free
 //@flag tested
-//@on then res.norm() < tol => tested = true;
-//@on? assign res => tested = false;
+//@on then $res.norm() < tol => tested = true;
+//@on? assign $res => tested = false;
     ensures r.0 is Ok ==> r.1 && r.0->Ok_0.valid
 //@end
 
@@ -50,8 +50,8 @@ pub struct St { pub valid: bool }
 //@event new_nvt free
 //@event new_nvt_unchecked free
 //@flag tested
-//@on then f.abs() < tol => tested = true;
-//@on? assign f => tested = false;
+//@on then $f.abs() < tol => tested = true;
+//@on? assign $f => tested = false;
     ensures r.0 is Ok ==> r.1 && r.0->Ok_0.valid
 //@end
 
